@@ -259,7 +259,9 @@ def handle (st : DState) (j : Json) : Except String (DState × Json) := do
         let size := optStr d "size"
         some { size := size, size2 := optStr d "size2", sizerName := optStr d "variableSizeFieldName",
                sizerType := optStr d "variableSizeFieldType",
-               isVariable := (d.getObjVal? "isVariableSize").toOption.isSome,
+               isVariable := (match optStr d "isVariableSize" with       -- read by value since the repair of D90
+                 | some v => v.toLower != "false" && v != "0"
+                 | none => false),
                marker := match size with
                  | some s => decide ((s.splitOn "THIS_IS_VARIABLE_SIZE_ARRAY").length > 1)
                  | none => false }
@@ -271,7 +273,7 @@ def handle (st : DState) (j : Json) : Except String (DState × Json) := do
   | "patch_apply" =>
     let ms ← (← getArr j "members").toList.mapM pmOfJson
     let acts ← (← getArr j "actions").toList.mapM actionOfJson
-    match Patch.applyAll ms acts with
+    match Patch.applyRules ms acts with
     | .ok r => pure (st, Json.mkObj [("members", Json.arr (r.map pmToJson).toArray)])
     | .error _ => pure (st, Json.mkObj [("error", true)])
   | "accepts" =>
